@@ -271,7 +271,7 @@ class SourceFile:
 
     def impls(self, pattern: str):
         """All impl blocks whose token-normalised header matches the regex `pattern` (full match)."""
-        rx = re.compile(pattern)
+        rx = re.compile("(?:" + pattern + r")(?: where .*)?")   # an added where-clause does not lose the anchor
         return [it for it in self.walk() if it.kind == "impl" and rx.fullmatch(it.name)]
 
     def impl(self, pattern: str) -> Item:
@@ -284,7 +284,9 @@ class SourceFile:
         if impl_pattern is None:
             cands = [it for it in self.walk() if it.kind == "fn" and it.name == name]
         else:
-            cands = [c for c in self.impl(impl_pattern).children if c.kind == "fn" and c.name == name]
+            # all impl blocks matching the header pattern are searched (a type may have several inherent impl blocks);
+            # the function itself must be unique among them
+            cands = [c for blk in self.impls(impl_pattern) for c in blk.children if c.kind == "fn" and c.name == name]
         if len(cands) != 1:
             raise ExtractError(f"{self.rel}: fn anchor {impl_pattern}::{name} matched {len(cands)} items")
         return cands[0]
